@@ -1,11 +1,28 @@
 /-
   Property C12 — DOK behaves as a mutable NumPy array under any sequence of assignments.
-  Property theorems only.  `Dok.get d k` is the element of the DOK model at index tuple `k` (stored
-  value, else the fill value); the dense side (`Spec.dSetitem`, `Spec.dSetFancy`, `Spec.dStep`,
-  `Spec.dRun`) is NumPy's meaning of the same assignments on a function `index tuple → value`.
+  Property theorems only.
+
+  `Dok.get d k` is the element of the DOK model at index tuple `k` (stored value, else the fill value);
+  the dense side (`Spec.dSetitem`, `Spec.dSetFancy`, `Spec.dStep`, `Spec.dRun`) is NumPy's meaning of the
+  same assignments on a function `index tuple → value`.  `Agrees d r s` (Lemmas/DokRefine.lean): the
+  model's outcome `r` (array afterwards, exception if any) of an assignment on state `d` agrees with
+  NumPy's outcome `s` — if NumPy accepts: no exception, every index tuple reads NumPy's value, the state
+  is canonical (`Canon`: distinct in-range keys, no stored fill value), shape and fill unchanged; if
+  NumPy raises: an exception of the same class and an unchanged array.  `WFOp`/`WFSet` is the grammar
+  of the property (non-zero slice steps, values broadcastable to the selection, one integer list per
+  axis, masks of the array's shape); `Excluded…` are the decidable regions of the known findings.
+
   The slice bounds of `DOK._setitem` are `Gen.dokSliceBounds`, regenerated from the source on every
   run, and the slice normalisation is composed of the generated `_slicing.py` definitions: editing
   either changes what is proved here.
+
+  When `start = ind.start or self.shape[i] - 1` is repaired upstream, `setitem_refines_counterexample` and
+  `counterexample_negStepStart0` stop checking (that is the signal).  Then: delete those two, add
+    theorem gen_is_fixed : Gen.dokSliceBounds = dokSliceBoundsFixed := by
+      funext a b c d; simp only [Gen.dokSliceBounds, dokSliceBoundsFixed]; cases a <;> cases b <;> cases c <;> grind
+  (checked against the generated definition of the patched source), and `setitem_refines_full_of_fixed
+  gen_is_fixed` is the full theorem; drop `Excluded_negStepStart0` from `Spec.Excluded` and use it in
+  place of `setitem_refines_partial` inside `step_refines_partial`.
 -/
 import SparseV.Lemmas.DokRefine
 namespace SparseV.C12
@@ -289,6 +306,21 @@ theorem nnz_invariant [DecidableEq α] (ops : List (Op α)) (d : DOK α) (hc : C
   funext k
   rw [hget k]
 
+/-- **getitem_after_history.**  After every such history, reading one element `d[i0, i1, …]` (one integer
+per axis, negative ones counting from the end) gives what the same read gives on the NumPy array:
+IndexError exactly when an integer is outside `[-dim, dim)`, else the array's element. -/
+theorem getitem_after_history [DecidableEq α] (ops : List (Op α)) (d : DOK α) (hc : Canon d)
+    (hops : ∀ op ∈ ops, WFOp d.shape op = true ∧ Excluded d.shape op = false)
+    (key : List Int) (hk : key.length = d.shape.length) :
+    getInt (run d ops) key = match normKey key d.shape with
+      | some k' => .ok (dRun d.shape (get d) ops k')
+      | none => .error .index := by
+  obtain ⟨hget, _, hsh, _⟩ := dok_history ops d hc hops
+  rw [getInt_spec (run d ops) key (by rw [hsh]; exact hk), hsh]
+  cases normKey key d.shape with
+  | none => rfl
+  | some k' => simp only [hget k']
+
 /-- non-vacuity of (c): a 3-step history on a 2×3 array — a column, then a reversed row with an array
 value that overwrites one element and deletes another (value 0 = fill), then an element deletion -/
 def exOps : List (Op Int) :=
@@ -296,6 +328,7 @@ def exOps : List (Op Int) :=
     .set false [.int 0, .slice none none (some (-1))] ⟨[3], [1, 0, 3]⟩,
     .set false [.int (-1), .int (-2)] (Val.scalar 0) ]
 example : (∀ op ∈ exOps, WFOp exE.shape op = true ∧ Excluded exE.shape op = false)
-    ∧ (run exE exOps).entries = [([0, 2], 1), ([0, 0], 3)] ∧ Canon exE ∧ nnz (run exE exOps) = 2 := by decide
+    ∧ (run exE exOps).entries = [([0, 2], 1), ([0, 0], 3)] ∧ Canon exE ∧ nnz (run exE exOps) = 2
+    ∧ (getInt (run exE exOps) [-2, -1]).toOption = some 1 ∧ (getInt (run exE exOps) [2, 0]).toOption = none := by decide
 
 end SparseV.C12
